@@ -516,6 +516,23 @@ def run_property(prop, tier, verbose=False):
     with ThreadPoolExecutor(NCPU) as ex:
         results = list(ex.map(lambda j: run_job(j, tier, verbose), jobs))
     jobmap = {j["id"]: j for j in jobs}
+    # thorough tier: every job that passed in < 60 s is re-run on a second SAT back end; a disagreement is a machinery error
+    crosschecked = 0
+    if tier == "thorough" and os.environ.get("VERIF_NO_CROSSCHECK") != "1":
+        def second(r):
+            j = dict(jobmap[r["job"]])
+            j["solver"] = "default" if j.get("solver", "default") == "cadical" else "cadical"
+            return run_job(j, tier, verbose)
+        todo = [r for r in results if r["status"] == "pass" and (r.get("solver_s") or 0) < 60 and jobmap[r["job"]].get("solver", "default") in ("default", "cadical")]
+        with ThreadPoolExecutor(NCPU) as ex:
+            again = list(ex.map(second, todo))
+        for r, r2 in zip(todo, again):
+            crosschecked += 1
+            r["crosscheck"] = {"back_end": r2["solver"], "status": r2["status"], "solver_s": r2.get("solver_s")}
+            if r2["status"] != "pass" or r2["obligations"] != r["obligations"]:
+                r["status"] = "error"
+                r["error"] = "back ends disagree: %s says %s (%d obligations), %s says %s (%d obligations): %s" % (
+                    r["solver"], "pass", r["obligations"], r2["solver"], r2["status"], r2["obligations"], r2.get("error") or r2.get("failed"))
     violations, known_hits, errors = [], [], []
     os.makedirs(os.path.join(VERIF, "replays"), exist_ok=True)
     for r in results:
@@ -572,7 +589,7 @@ def run_property(prop, tier, verbose=False):
                         "functions_under_contract": r["functions"], "callees_replaced_by_contract": r["replaced"],
                         "obligations": r["obligations"], "discharged": r["discharged"], "by_class": r["by_class"],
                         "reach_checks": r["reach_total"], "instrumentation_checks": r["instr_checks"],
-                        "back_end": r["solver"], "solver_s": r.get("solver_s"), "wall_s": r["wall_s"],
+                        "back_end": r["solver"], "solver_s": r.get("solver_s"), "wall_s": r["wall_s"], "crosscheck": r.get("crosscheck"),
                         "failed": r["failed"], "error": r["error"], "checker_cmd": r.get("checker_cmd")})
     proof_jobs = [r for r in results if r["level"] != "bounded"]
     level = "proof" if proof_jobs else "other"
@@ -583,7 +600,7 @@ def run_property(prop, tier, verbose=False):
               "checker_cmd": "cd /verif && ./run %s %s   (per job: goto-cc -> goto-instrument --dfcc --enforce-contract ... -> cbmc; exact commands in samples[].checker_cmd)" % (prop, tier),
               "trusted_base": TRUSTED_BASE + idx.get("trusted_base", []),
               "functions_under_contract": funcs,
-              "jobs": len(results),
+              "jobs": len(results), "jobs_crosschecked_on_second_back_end": crosschecked,
               "jobs_by_level": {lv: sum(1 for r in results if r["level"] == lv) for lv in sorted({r["level"] for r in results})},
               "solver_s_total": round(sum(r.get("solver_s") or 0 for r in results), 2),
               "explanation": idx.get("explanation", ""),
